@@ -37,9 +37,20 @@ def pipeline_model():
     try:
         if res['violated'] or not res.get('finished'):
             raise vlib.Infra('ReadPipeline.tla: ' + res['out'][-2500:])
-        return {'states': res['distinct'], 'transitions': res['generated'], 'wall_s': round(res['wall'], 1)}
+        out = {'states': res['distinct'], 'transitions': res['generated'], 'wall_s': round(res['wall'], 1)}
     finally:
         vlib.tlc_cleanup(res)
+    # mutation: an exporter that does not drain after an error message leaves a holding stage blocked - TLC must find it
+    mut = vlib.tlc(SPECDIR, 'MC_ReadPipeline.tla', 'MC_ReadPipeline_nodrain.cfg', timeout=900)
+    try:
+        if 'EventuallyAllTerminated' not in ' '.join(mut['violated'] or []) and 'EventuallyAllTerminated was violated' not in mut['out']:
+            raise vlib.Infra('ReadPipeline.tla with ExportDrainsOnError = FALSE violates nothing: the termination property is vacuous\n' + mut['out'][-1500:])
+        out['mutation_no_drain'] = 'EventuallyAllTerminated violated (as it must be)'
+        out['states'] += mut.get('distinct', 0)
+        out['transitions'] += mut.get('generated', 0)
+    finally:
+        vlib.tlc_cleanup(mut)
+    return out
 
 
 def tset(items):
